@@ -20,6 +20,8 @@ inductive ScEv where
   /-- `for (int n = 0;;) body` - the loop is a block of its own (6.8.5p5): `n` is gone after it.
   `bodyIf`: the body is an `else`-less `if`, so the parser must look one token past the loop -/
   | forObject (n : String) (bodyIf : Bool)
+  /-- an object declared with a struct / union specifier (`struct Sq * n ;` ...): the same scoping as `object` -/
+  | objectS (n : String) (form : Nat)
   deriving Repr, Inhabited, DecidableEq
 
 /-- ordinary-identifier scopes, innermost first: name ↦ is it a typedef name -/
@@ -50,6 +52,7 @@ def after : List ScEv → Scopes → Scopes
   | .protoParam _ :: r, s => after r s
   | .probe _ _ :: r, s => after r s
   | .forObject _ _ :: r, s => after r s
+  | .objectS n _ :: r, s => after r (declare s n false)
 
 /-- is `n` a type name after the history? -/
 def isType (h : List ScEv) (n : String) : Bool := lookupS (after h [[]]) n
@@ -77,6 +80,10 @@ def evText (k : Nat) : ScEv → List String
   | .probe n 0 => [n, "*", "pq" ++ toString k, ";"]                 -- declaration iff n is a type
   | .probe n 1 => ["(", n, ")", "(", "xq", ")", ";"]                  -- cast iff n is a type
   | .probe n 2 => ["sizeof", "(", n, ")", ";"]                        -- type operand iff n is a type
+  | .objectS n 0 => ["struct", "Sq", "*", n, ";"]
+  | .objectS n 1 => ["union", "Uq", "*", n, "=", "0", ";"]
+  | .objectS n 2 => ["struct", "Sq", "*", n, "[", "2", "]", ";"]
+  | .objectS n _ => ["const", "struct", "Sq", "*", "const", n, "=", "0", ";"]
   | .forObject n false => ["for", "(", "int", n, "=", "0", ";", ";", ")", ";"]
   | .forObject n true => ["for", "(", "int", n, "=", "0", ";", ";", ")", "if", "(", "cq", ")", "cq", ";"]
   | .probe n _ => [n, "(", "yq" ++ toString k, ")", ";"]              -- declaration iff n is a type
@@ -108,6 +115,7 @@ def wellFormed : List ScEv → Scopes → Nat → Bool
   | .typedefName n :: r, s, d => !redeclConflict s n true && wellFormed r (declare s n true) d
   | .object n :: r, s, d => !redeclConflict s n false && wellFormed r (declare s n false) d
   | .func n :: r, s, d => !redeclConflict s n false && wellFormed r (declare s n false) d
+  | .objectS n _ :: r, s, d => !redeclConflict s n false && wellFormed r (declare s n false) d
   | _ :: r, s, d => wellFormed r s d
 
 /-- program: file-scope prefix, then `void f ( void ) { body }` ; the function body is a scope of its own -/
@@ -143,6 +151,7 @@ def afterLeaky : List ScEv → Scopes → Option Scopes
   | .object n :: r, s => if redeclConflict s n false then none else afterLeaky r (declare s n false)
   | .func n :: r, s => if redeclConflict s n false then none else afterLeaky r (declare s n false)
   | .forObject n _ :: r, s => if redeclConflict s n false then none else afterLeaky r (declare s n false)
+  | .objectS n _ :: r, s => if redeclConflict s n false then none else afterLeaky r (declare s n false)
   | _ :: r, s => afterLeaky r s
 
 def leakyProbes : List ScEv → List ScEv → Option (List String)
